@@ -26,23 +26,11 @@ def claim(pid, text, note, **kw):
 
 
 claim("C05",
-      "Bounded model checking of the encoder's emission kernels against RFC 1951/1950: the bit writer packs every sequence of up to 4 "
-      "emissions from every valid register state exactly as RFC 1951 3.1.1 prescribes; every literal, every (length, distance) pair and "
-      "every block header is emitted with the RFC fixed code / extra bits (all 256 x 32768 pairs, decided symbolically); static tables "
-      "equal the RFC tables. The solver ranges over all values inside each harness's bounds, which sampling cannot.",
-      "Outside the claim: that match finders (longest_match, medium/slow) never propose a distance beyond max_dist; full-size dynamic trees; "
-      "whole-stream composition beyond the kernels listed in the evidence.")
-
+      "Bounded model checking of the encoder's emission kernels against RFC 1951/1950: the bit writer packs every sequence of up to 4 emissions from every valid register state exactly as RFC 1951 3.1.1 prescribes; every literal, every (length, distance) pair and every block header is emitted with the RFC fixed code / extra bits (all 256 x 32768 pairs, decided symbolically); static tables equal the RFC tables; dynamic trees at reduced alphabets: gen_codes assigns a canonical prefix-free code to every complete length set (5 symbols <= 4 bits; 8 symbols <= 7 bits), build_tree on the bit-length alphabet yields a complete code within the length limit whose lengths follow the frequencies and whose cost equals opt_len (2..=4 used symbols, any frequencies; the forced second code), send_tree's run-length coding of the lengths is read back by an RFC 1951 3.2.7 reference decoder and scan_tree predicts exactly the symbols sent (4, 5, 7 symbolic lengths; an 11-zero run); zlib header/trailer; stored blocks (level 0) parsed back by a reference parser. The solver ranges over all values inside each harness's bounds, which sampling cannot.",
+      'Outside the claim: that match finders (longest_match, medium/slow) never propose a distance beyond max_dist; full-size dynamic trees and the length-limit overflow repair of gen_bitlen (not reachable at the reduced sizes); compress_block over a whole symbol buffer; whole-stream composition beyond the kernels listed in the evidence.')
 claim("C01",
-      "Compositional, bounded: (a) level 0 end to end: one deflate_stored call on a typed state, every input of 0..=6 bytes, every output "
-      "space and flush mode, decoded by a stored-block reference parser back to the input; (b) level 1 end to end: deflate() with "
-      "deflate_quick on every input of concrete length 1 and 3 (thorough: 5), decoded by a fixed-Huffman reference decoder back to the "
-      "input; (c) every static symbol the encoder can emit is the RFC code (KD1/KD2) and every fixed-table entry the decoder uses is the "
-      "RFC code (KI5d), so encoder and decoder agree symbol by symbol; (d) the real decoder decodes stored blocks and fixed symbols exactly "
-      "(KI5c/KI5d); (e) reset leaves no state behind (KD10).",
-      "Outside the claim: levels 2-9 and the Huffman-only/RLE/Filtered strategies (dynamic trees: build_tree over 286 symbols is beyond "
-      "reach), inputs long enough to slide the window, multi-call schedules beyond one call, deflateParams mid-stream, windowBits/memLevel "
-      "sweeps. A change confined to fast/medium/slow/longest_match is not detectable by this check.")
+      "Compositional, bounded: (a) level 0 end to end: one deflate_stored call on a typed state, every input of 0..=6 bytes, every output space and flush mode, decoded by a stored-block reference parser back to the input; (b) level 1 end to end: deflate() with deflate_quick on every input of concrete length 1 and 3 (thorough: 5), decoded by a fixed-Huffman reference decoder back to the input; (c) every static symbol the encoder can emit is the RFC code (KD1/KD2) and every fixed-table entry the decoder uses is the RFC code (KI5d), so encoder and decoder agree symbol by symbol; (d) the real decoder decodes stored blocks and fixed symbols exactly (KI5c/KI5d); (e) reset leaves no state behind (KD10); (f) dynamic-tree kernels at reduced alphabets (KD4/KD5, see C05); (g) the window slide: positions move with the data, the deferred lazy match still denotes equal bytes or is dropped (inductive step over deflate_slow's loop-head invariant, 1 KiB symbolic window), hash chains slide to the same positions or NIL.",
+      'Outside the claim: the match finders and the fast/medium/slow strategies themselves (only the slide they rely on), full-size dynamic trees, inputs long enough to need more than one slide, multi-call schedules beyond the bounds, deflateParams mid-stream, windowBits/memLevel sweeps. A change confined to fast/medium/slow/longest_match is not detectable by this check (seed C10c is such a change).')
 claim("C02",
       "Bounded model checking of every decoder kernel with CBMC's pointer, bounds, overflow, unwrap and assertion checks plus canaries "
       "around every caller buffer, unwinding assertions as the termination argument: bit reader (any split, refill precondition), writer "
@@ -60,13 +48,8 @@ claim("C04",
       'Bounded: split invariance of the bit reader (same bits whether delivered in one slice or cut at any point); every decoder step harness starts from an arbitrary suspended state (arbitrary bits in the register, arbitrary progress counters) and asserts that suspension consumes exactly the available input and keeps the progress needed to resume (CopyBlock, Extra/Name/Comment, LenLens, CodeLens items with their extra bits missing, LenExt/Dist/DistExt, Match partial copies in both copies of the code); the result of a step is asserted as a function of the bits alone, independent of how they arrived; flush modes only decide where a call returns (Type/TypeDo/Len_/after a stored header under Z_TREES), and the state saved there is the one the next call needs; inflate() reports BufError exactly when nothing moved or Finish could not complete.',
       'Outside: schedules of more than one suspension per harness, cuts inside dynamic-table construction; equality of two whole runs is argued by induction over steps, not decided by the solver.')
 claim("C06",
-      "Bounded: deflate()'s status machine with the compress function replaced by a contract stub: every level x strategy x flush, documented "
-      "statuses only, duplicate-flush rule, Finish under starved output (1..=3 bytes per call) reaches StreamEnd in at most 11 calls and "
-      "every call makes progress; the real level-0 and level-1 paths never trip an assertion (Pending::extend capacity, fill_window "
-      "asserts) for every input within bounds; deflatePrime for every i32 bits/value; params/tune/set_header/pending for every integer "
-      "argument; reset from an arbitrary state; allocation-failure path of deflateCopy.",
-      "Outside: Pending::extend capacity inside block emission for levels >= 2 (depends on lit_bufsize accounting over whole blocks); "
-      "multi-call histories beyond the bounds listed per harness.")
+      "Bounded: deflate()'s status machine with the compress function replaced by a contract stub: every level x strategy x flush, documented statuses only, duplicate-flush rule, a call refused for lack of output space changes nothing and its retry goes through, a flush starved inside the compress function is completed by the next call whatever flush preceded it, Finish under starved output (1..=3 bytes per call) reaches StreamEnd in at most 11 calls and every call makes progress; the real level-0 and level-1 paths never trip an assertion (Pending::extend capacity, fill_window asserts) for every input within bounds; deflatePrime for every i32 bits/value; params/tune/set_header/pending for every integer argument; reset from an arbitrary state; allocation-failure path of deflateCopy.",
+      'Outside: Pending::extend capacity inside block emission for levels >= 2 (depends on lit_bufsize accounting over whole blocks); multi-call histories beyond the bounds listed per harness.')
 claim("C07",
       "Bounded and narrow: for level 0 (every input of 0..=6 bytes at w_size 16) and level 1 (every input of length 1 and 3; thorough: 5) a "
       "single Finish call into a buffer of deflateBound size ends with StreamEnd and produced <= bound, with both sides being the real code; "
@@ -85,10 +68,7 @@ claim("C10",
       "relaxed-atomic feature cache, anything about threads (Kani does not model concurrency), buffer address/alignment effects beyond the "
       "symbolic offsets inside the harness arrays.")
 claim("C11",
-      "Bounded: after Partial/Sync/Full/Block flush with room, deflate() appends the RFC marker (empty static block / byte-aligned 00 00 FF FF), "
-      "Full flush clears the hash head and resets positions, duplicate flushes are refused without output; level 0: everything consumed is "
-      "decodable from the output after a flush; level 1: the open block is closed, the prefix decodes to all input, marker follows, register "
-      "byte aligned; starved completion over later calls.",
+      'Bounded: after Partial/Sync/Full/Block flush with room, deflate() appends the RFC marker (empty static block / byte-aligned 00 00 FF FF), Full flush clears the hash head and resets positions, duplicate flushes are refused without output; a flush starved of output inside the compress function is completed (marker included) by the next call with the same flush value, whatever flush preceded it; level 0: everything consumed is decodable from the output after a flush; level 1: the open block is closed, the prefix decodes to all input, marker follows, register byte aligned.',
       "Outside: deflate_slow's deferred literal and deflate_medium (levels >= 3): only their contract with deflate() is assumed.")
 claim("C13",
       "Bounded, protocol only: zlib header announces FDICT + DICTID = stream.adler (big endian) for every level/strategy; the decoder goes "
@@ -115,7 +95,7 @@ claim("C16",
       "The oracle is my transcription of the rules (trusted base). Outside: data-movement equality with zlib-ng, multi-call programs, the "
       "libz-rs-sys NULL-pointer wrappers (thin, exercised by the pinned null.rs tests).")
 claim("C18",
-      "Bounded: the allocator shim for every misalignment of the user block (k < 64), size and alignment: pointer aligned and inside the block, stash word below it, exactly one zfree with the original pointer and the same opaque; oversized requests refused before zalloc; failed deflateCopy: MemError, one zalloc, no zfree, destination left without state; deflate::end / inflate::end on a typed state in every status release every block exactly once through the caller's zfree (counting allocator passed through opaque).",
+      "Bounded: the allocator shim for every misalignment of the user block (k < 64), size and alignment: pointer aligned and inside the block, stash word below it, exactly one zfree with the original pointer and the same opaque; oversized requests refused before zalloc; the default-allocator fallback always leaves a matched zalloc/zfree pair (every subset of callbacks supplied by the caller), which is what lets the shim's two halves agree; failed deflateCopy: MemError, one zalloc, no zfree, destination left without state; deflate::end / inflate::end on a typed state in every status release every block exactly once through the caller's zfree (counting allocator passed through opaque).",
       'Outside: balanced alloc/free over successful init/copy histories (those success paths are not encodable), the gz layer.')
 claim("C19",
       'Bounded: inflateBack on a typed stream with a 256-byte window, concrete prefix (final fixed block, 1 or 9 literals, length-3 code, one concrete distance code per harness, all 32) + symbolic extra bits: no access outside the window (typed local object), documented status, too-far distances rejected with the literals still delivered, in-window matches produce the LZ77 bytes inflate would; after the window has wrapped (reduced instance: 16-byte window, back() takes every size from window.buffer_size()) every distance <= window is accepted and copies from the ring, larger ones are rejected; plus copy_match_back for every (filled, offset, length).',
